@@ -157,6 +157,16 @@ def exec_nesting():
         out.append(("deep-else-exec-%d" % n, prog("    " + "if (a == 0) { } else " * n + "{ a = 5; }\n    println(a);\n")))
         out.append(("deep-while-exec-%d" % n, prog("    " + "while (a < 3) { " * n + "a = a + 1; " + "} " * n + "\n    println(a);\n")))
         out.append(("deep-recursion-exec-%d" % n, "int r(int k) { if (k == 0) { return 0; } return 1 + r(k - 1); }\nint main() { println(r(%d)); return 0; }\n" % (n * 10)))
+    # print / println with conversion-looking text in every position and with too few / odd arguments: whatever is printed, the
+    # run must end by itself without touching invalid memory
+    forms = ['println(a, "x%d");', 'print("r:", "%s");', 'println("%d");', 'println("%");', 'println("%d %d", 1);', 'println("%s", 5);', 'println("%c", 300);',
+             'println("%5", 1);', 'println("%-", 1);', 'println("%lld");', 'println("%.", 1);', 'println("%*d", 3, 4);', 'println("%n", 1);', 'println("%9999d", 1);',
+             'println("%s %s", "a");', 'println("%d", "text");', 'println("%s");', 'println(a, "of", 4, "-> 75%d");', 'println("%%%d%%", 1);', 'println("%c%c%c", 65);',
+             'println("%.99999f", 1.5);', 'println("%llllld", 1);', 'println("%hhd", 1);', 'println("%p", a);', 'println("%x %o %u", 255, 8, 3);', 'println("%e %g", 1.5, 2.5);',
+             'println("{a:}");', 'println("{a:99999d}");', 'println("{a:0}");', 'println("{a:x:x}");', 'println("{a:.f}");', 'println("{a:.99999f}");', 'println("{}");',
+             'println("{{a}");', 'println("{a}}");', 'println("{a:b}{a:X}{a:x}");', 'println("{a +}");', 'println("%s", "{a}");', 'println("{z[9]}");']
+    for i, f in enumerate(forms):
+        out.append(("exec-print-form-%d" % i, prog("    %s\n" % f)))
     return [(k, p) for k, p in out if len(p.encode("utf-8")) <= 8192]
 
 
@@ -244,7 +254,7 @@ def main(a):
                 problems.append("parse loop did not consume input between iterations %s -> %s (hypothesis of CbProps.C10.progress_terminates)" % where)
         if not problems:
             return
-        cell = kind.rsplit("-", 1)[0] if kind.startswith(("deep-", "long-", "wide-", "double-")) else kind
+        cell = kind.rsplit("-", 1)[0] if kind.startswith(("deep-", "long-", "wide-", "double-", "exec-print-form")) else kind
         sig = (cell, problems[0].split(":")[0])
         if os.environ.get("CB_VERIF_CENSUS"):
             census.setdefault(sig, []).append("%s: %s | %s" % (name, "; ".join(problems), (o[2] or "")[-160:].replace("\n", " ")))
